@@ -334,4 +334,56 @@ theorem no_blank_without_side (d : Doc) (index : Nat) (resume : Option Resume) (
   rw [hs, no_side_no_blank] at hb
   exact ⟨hb, hr⟩
 
+/-! ### break-inside: avoid -/
+
+open Wp.PM in
+private theorem finishContainer_avoid_inside (c : Ctx) (st : PStyle) (b : BoxSt) (isStart pie : Bool) (bs : Rat)
+    (cwc dbd : Bool) (resume : Option Resume) (posY : Rat) (adjL cur : List Rat) (curIsL : Bool)
+    (np : NextPage) (hasKids : Bool) (pageEnd : String) (mk : Geo → Frag)
+    (hav : avoids false st.brkInside = true)
+    (hf : (finishContainer c st b isStart pie bs cwc dbd resume posY adjL cur curIsL np hasKids pageEnd mk).frag.isSome = true)
+    (hr : (finishContainer c st b isStart pie bs cwc dbd resume posY adjL cur curIsL np hasKids pageEnd mk).resume.isSome = true) :
+    pie = true := by
+  unfold finishContainer at hf hr
+  have hav' : avoidsPage st.brkInside = true := hav
+  cases hp : pie with
+  | true => rfl
+  | false =>
+    exfalso
+    rw [hp, hav'] at hf hr
+    cases hres : resume with
+    | none => rw [hres] at hr; simp at hr
+    | some r => rw [hres] at hf; simp at hf
+
+open Wp.PM in
+/-- (d)(e) `break-inside: avoid` (or `avoid-page`): a box that asks not to be broken is fragmented
+(returned with a resume position) **only if the page was empty when it was started** — otherwise
+the layout returns no fragment and the whole box is pushed to the next page. Any box, any content. -/
+theorem avoid_inside_honoured (box : PBox) (c : Ctx) (idx : Nat) (y bs : Rat) (skip : Option Resume)
+    (cb pie : Bool) (adjL : List Rat) (hav : avoids false box.st.brkInside = true)
+    (hf : (layoutBox c box idx y bs skip cb pie adjL).frag.isSome = true)
+    (hr : (layoutBox c box idx y bs skip cb pie adjL).resume.isSome = true) : pie = true := by
+  cases box with
+  | para id n lineH st =>
+    unfold layoutBox at hf hr
+    unfold finishPara at hf hr
+    dsimp only at hf hr
+    split at hf
+    · simp [abortResult] at hf
+    · rename_i hna
+      rw [if_neg hna] at hr
+      exact finishContainer_avoid_inside _ _ _ _ _ _ _ _ _ _ _ _ _ _ _ _ _ hav hf hr
+  | block id st kids =>
+    unfold layoutBox at hf hr
+    unfold finishBlock at hf hr
+    dsimp only at hf hr
+    split at hf
+    · simp [abortResult] at hf
+    · rename_i heq
+      rw [heq] at hr
+      exact finishContainer_avoid_inside _ _ _ _ _ _ _ _ _ _ _ _ _ _ _ _ _ hav hf hr
+    · rename_i heq
+      rw [heq] at hr
+      exact finishContainer_avoid_inside _ _ _ _ _ _ _ _ _ _ _ _ _ _ _ _ _ hav hf hr
+
 end Wp.C04
